@@ -50,7 +50,7 @@ def cfgOf (sc : ScJ) : Option Cfg := do
   let kind ← match sc.kind with
     | "canceled" => some CtxKind.canceled | "deadline" => some CtxKind.deadline
     -- cancelled with a custom cause / by hand long before a far deadline: ctx.Err() is context.Canceled
-    | "cause" => some CtxKind.canceled | "fardeadline" => some CtxKind.canceled | "child" => some CtxKind.canceled
+    | "cause" => some CtxKind.canceled | "fardeadline" => some CtxKind.canceled | "child" => some CtxKind.canceled | "neardeadline" => some CtxKind.deadline
     | _ => none
   let items ← sc.items.mapM fun it => do
     let ex ← it.exec.mapM parseOutVal
